@@ -144,7 +144,7 @@ def x86Sem (c : ExecCase) (code : Array UInt8) (hfn : List Nat) (m : Memory) : S
   let sentinel : BitVec 64 := 0xfffffffffffffff0#64
   let frame : Region := Memory.writeRegion ⟨sb, Array.replicate 568 0⟩ entry (leBytes sentinel.toNat 8)
   let lower : Region := ⟨sb - below, Array.replicate below 0⟩
-  let fns : List (Nat × Nat) := (List.range 4).filterMap fun n => (hfn[n]?).map fun a => (a, n)
+  let fns : List (Nat × Nat) := (List.range 12).filterMap fun n => (hfn[n]?).map fun a => (a, n % 4)
   let cfg : X86.Cfg := { code, codeBase := 0x100000, retSentinel := sentinel,
                          ext := fun a => (fns.find? (·.1 == a)).map fun e => (e.2, mix e.2) }
   let memPtr : Nat := if m.mem.bytes.size = 0 then 0 else m.mem.base
@@ -176,7 +176,7 @@ def handleExec (toks : List String) : String :=
     if (look (kvOf toks) "anyprog").isSome then
       -- compile-only cases on arbitrary byte strings (accept-all verifier): the compile models alone
       let hfn : List Nat := ((look (kvOf toks) "hfn").getD "").splitOn "," |>.filterMap parseNat?
-      let haddr (k : Nat) : Option Nat := (c.helpers.find? (·.1 == k)).bind fun e => hfn[e.2 % 4]?
+      let haddr (k : Nat) : Option Nat := (c.helpers.find? (·.1 == k)).bind fun e => hfn[e.2 % 12]?
       let jc := match JitEmit.compile prog haddr true false with
         | .ok code => s!"{code.size}.{u64Hex (code.foldl (fun (h : UInt64) (b : UInt8) => (h ^^^ b.toUInt64) * 0x100000001b3) 0xcbf29ce484222325)}"
         | .error .err => "err" | .error .panic => "panic"
@@ -222,7 +222,7 @@ def handleExec (toks : List String) : String :=
         let m0 := Interp.init (mkMem c)
         -- byte-exact emitter model: length and digest of the machine code (helper addresses as echoed by the harness)
         let hfn : List Nat := ((look (kvOf toks) "hfn").getD "").splitOn "," |>.filterMap parseNat?
-        let haddr (k : Nat) : Option Nat := (c.helpers.find? (·.1 == k)).bind fun e => hfn[e.2 % 4]?
+        let haddr (k : Nat) : Option Nat := (c.helpers.find? (·.1 == k)).bind fun e => hfn[e.2 % 12]?
         let (um, ud) := if c.kind == "mbuff" then (true, false) else if c.kind == "fixed" then (true, true) else (false, false)
         let compiled := JitEmit.compile prog haddr um ud
         let jitcode := match compiled with
